@@ -306,14 +306,7 @@ func (env *Env) c19Network(e *flow.Engine, mainFn *ssa.Function, verifyCall *ssa
 				nStore++
 				// every path from the function entry to the store takes the true
 				// edge of an errors.As test: with those edges removed the store is unreachable
-				okAll := !reachableAvoiding(fn, b, func(p *ssa.BasicBlock, succ int) bool {
-					iff, ok := p.Instrs[len(p.Instrs)-1].(*ssa.If)
-					if !ok || succ != 0 {
-						return false
-					}
-					c, ok := iff.Cond.(*ssa.Call)
-					return ok && c.Call.StaticCallee() != nil && c.Call.StaticCallee().String() == "errors.As"
-				})
+				okAll := !reachableAvoiding(fn, b, positiveNetworkEdge)
 				if okAll {
 					r.OK("C19/TYPED-ERR", "network-code-guard", env.P.Pos(st.Pos()), "exit code 3 is chosen only when errors.As found a typed download error")
 				} else {
@@ -333,6 +326,42 @@ func (env *Env) c19Network(e *flow.Engine, mainFn *ssa.Function, verifyCall *ssa
 					}
 					r.Fail("C19/TYPED-ERR", "classified-error@"+env.P.Pos(c.Pos()), env.P.Pos(c.Pos()), "the error classified as a download failure must be the error verify.TdxQuote returned")
 				}
+			}
+		}
+	}
+	// the same selection written as a helper: `return exitNetwork` in a function of
+	// the tool, reachable only through a positive network test
+	for _, fn := range env.P.Funcs {
+		if fn.Pkg == nil || fn.Pkg.Pkg.Path() != load.RepoPath(checkPkg) {
+			continue
+		}
+		res := fn.Signature.Results()
+		if res.Len() != 1 || !isIntType(res.At(0).Type()) {
+			continue
+		}
+		for _, b := range fn.Blocks {
+			ret, ok := b.Instrs[len(b.Instrs)-1].(*ssa.Return)
+			if !ok || len(ret.Results) != 1 {
+				continue
+			}
+			if v, ok := constIntOf(ret.Results[0]); !ok || v != 3 {
+				continue
+			}
+			nStore++
+			if !reachableAvoiding(fn, b, positiveNetworkEdge) {
+				r.OK("C19/TYPED-ERR", "network-code-guard", env.P.Pos(ret.Pos()), "exit code 3 is chosen only when errors.As found a typed download error")
+			} else {
+				r.Fail("C19/TYPED-ERR", "network-code-guard", env.P.Pos(ret.Pos()), "exit code 3 can be chosen without errors.As having matched one of the typed download errors")
+			}
+			for _, c := range env.P.Callers[fn] {
+				if verifyCall == nil || len(c.Common().Args) == 0 {
+					continue
+				}
+				arg := c.Common().Args[len(c.Common().Args)-1]
+				if arg == ssa.Value(verifyCall) {
+					continue
+				}
+				r.Fail("C19/TYPED-ERR", "classified-error@"+env.P.Pos(c.Pos()), env.P.Pos(c.Pos()), "the error classified as a download failure must be the error verify.TdxQuote returned")
 			}
 		}
 	}
@@ -836,4 +865,75 @@ func reachableAvoiding(fn *ssa.Function, target *ssa.BasicBlock, cut func(p *ssa
 		}
 	}
 	return false
+}
+
+// positiveNetworkEdge: the true edge of a test that holds only when errors.As
+// matched: errors.As itself, or a predicate of the tool all of whose `true`
+// results come from such tests.
+func positiveNetworkEdge(p *ssa.BasicBlock, succ int) bool {
+	iff, ok := p.Instrs[len(p.Instrs)-1].(*ssa.If)
+	if !ok || succ != 0 {
+		return false
+	}
+	c, ok := iff.Cond.(*ssa.Call)
+	if !ok || c.Call.StaticCallee() == nil {
+		return false
+	}
+	return isNetworkPredicate(c.Call.StaticCallee(), map[*ssa.Function]bool{})
+}
+
+func isNetworkPredicate(fn *ssa.Function, busy map[*ssa.Function]bool) bool {
+	if fn.String() == "errors.As" {
+		return true
+	}
+	if fn.Blocks == nil || busy[fn] {
+		return false
+	}
+	res := fn.Signature.Results()
+	if res.Len() != 1 {
+		return false
+	}
+	if b, ok := res.At(0).Type().Underlying().(*types.Basic); !ok || b.Kind() != types.Bool {
+		return false
+	}
+	busy[fn] = true
+	defer delete(busy, fn)
+	for _, b := range fn.Blocks {
+		ret, ok := b.Instrs[len(b.Instrs)-1].(*ssa.Return)
+		if !ok {
+			continue
+		}
+		switch v := ret.Results[0].(type) {
+		case *ssa.Const:
+			if constBoolVal(v) && reachableAvoiding(fn, b, positiveNetworkEdge) {
+				return false // a `return true` not behind a positive test
+			}
+		case *ssa.Call:
+			if v.Call.StaticCallee() == nil || !isNetworkPredicate(v.Call.StaticCallee(), busy) {
+				return false
+			}
+		case *ssa.Phi:
+			for _, ed := range v.Edges {
+				switch x := ed.(type) {
+				case *ssa.Const:
+					if constBoolVal(x) {
+						return false
+					}
+				case *ssa.Call:
+					if x.Call.StaticCallee() == nil || !isNetworkPredicate(x.Call.StaticCallee(), busy) {
+						return false
+					}
+				default:
+					return false
+				}
+			}
+		default:
+			return false
+		}
+	}
+	return true
+}
+
+func constBoolVal(c *ssa.Const) bool {
+	return c.Value != nil && c.Value.Kind() == constant.Bool && constant.BoolVal(c.Value)
 }
